@@ -98,6 +98,7 @@ template <typename T>
 struct expect
 {
     sz calls = 0, nz = 0, fin = 0;
+    bool subnormal = false;      // some value is subnormal: sums are no longer exact in any arithmetic at hand
     L sum = 0, sumsq = 0;
     std::vector<L> bin_sum, bin_sumsq;   // distribution (2 bins on [0,1])
 };
@@ -116,6 +117,7 @@ static expect<T> reference(std::vector<call_rec<T>> const& log, sz from, sz n)
         T const fw = c.f * c.w;
         if (!std::isfinite(fw)) continue;
         ++e.fin;
+        if (std::fabs(fw) < std::numeric_limits<T>::min()) e.subnormal = true;
         e.sum += fw; e.sumsq += L(fw) * L(fw);
         sz const b = c.point[0] < T(0.5) ? 0 : 1;
         e.bin_sum[b] += fw; e.bin_sumsq[b] += L(fw) * L(fw);
@@ -125,8 +127,11 @@ static expect<T> reference(std::vector<call_rec<T>> const& log, sz from, sz n)
 
 // compares one result with the reference; `exact`: sums are exactly representable -> bitwise
 template <typename T, typename R>
-static bool judge(report& r, R const& res, expect<T> const& e, bool exact, bool with_dist, std::string const& id, std::string const& what)
+static bool judge(report& r, R const& res, expect<T> const& e, bool exact_requested, bool with_dist, std::string const& id, std::string const& what)
 {
+    // bit-for-bit only where every partial sum is exactly representable: not with subnormal values next to ordinary ones
+    // (a compensated sum in T may then even be more accurate than this reference in long double)
+    bool const exact = exact_requested && !e.subnormal;
     L const eps = std::numeric_limits<T>::epsilon();
     auto bad = [&](std::string const& key, std::string const& msg) { r.violate(key, id, what + ": " + msg); return false; };
     if (res.calls() != e.calls) return bad("calls", "calls() = " + std::to_string(res.calls()) + ", requested " + std::to_string(e.calls));
